@@ -29,20 +29,30 @@ import (
 	"time"
 
 	"github.com/youchainhq/go-youchain/common"
+	"github.com/youchainhq/go-youchain/consensus"
 	"github.com/youchainhq/go-youchain/consensus/ucon"
+	"github.com/youchainhq/go-youchain/core/state"
+	"github.com/youchainhq/go-youchain/core/types"
 	"github.com/youchainhq/go-youchain/crypto"
 	"github.com/youchainhq/go-youchain/crypto/vrf"
 	secp256k1VRF "github.com/youchainhq/go-youchain/crypto/vrf/secp256k1"
 	"github.com/youchainhq/go-youchain/params"
+	"github.com/youchainhq/go-youchain/rlp"
 	"verif/harness/vf"
 )
 
 const prec = 640
 
 // stable key of the finding fixed by commit 839997b (a regression is reported under it)
+// stable key of the open finding on the gossip path (fixes/C04_verify_priority_ignores_invalid.md)
+const whatServer = "Server.verifyPriority accepts a proposer priority that VrfVerifyPriority reports as invalid (not the largest hash over the seats)"
+
 const whatPanic = "choose panics (cephes: parameter out of bounds) when the committee size exceeds the total stake"
 
 var maxHash = ucon.VerifC04MaxHash()
+
+// what the probe saw: Server.verifyPriority returns an error for a wrong priority
+var srvRepaired bool
 
 // Rec is one replayable input (also the JSON stored in corpus / oracle hits).
 type Rec struct {
@@ -322,6 +332,7 @@ func optZ(j int64, some bool) string {
 
 type outcome struct {
 	coq   string // Coq case term ("" = not sent to Coq)
+	coq2  string // a second Coq case of the same record
 	what  string // oracle violation
 	class string
 	got   string
@@ -582,6 +593,70 @@ func runForge(rec *Rec, toCoq bool) outcome {
 	return o
 }
 
+// ---- Server.verifyPriority (the gossip path) with stub chain state -----------
+
+type stubVld struct {
+	stat *state.ValidatorsStat
+	val  *state.Validator
+}
+
+func (p *stubVld) GetValidatorsStat() (*state.ValidatorsStat, error) { return p.stat, nil }
+func (p *stubVld) GetValidatorByMainAddr(a common.Address) *state.Validator {
+	if a == p.val.MainAddress() {
+		return p.val
+	}
+	return nil
+}
+func (p *stubVld) GetValidators() *state.Validators { return nil }
+
+type stubChain struct {
+	consensus.ChainReader
+	hdr *types.Header
+	vld state.ValidatorReader
+}
+
+func (c *stubChain) GetHeaderByNumber(n uint64) *types.Header                  { return c.hdr }
+func (c *stubChain) GetVldReader(r common.Hash) (state.ValidatorReader, error) { return c.vld, nil }
+
+// serverVerifyPriority: 0 accepted, 1 rejected, 5 panic, -1 not applicable
+func serverVerifyPriority(pub *ecdsa.PublicKey, seed common.Hash, index, role uint32, proof []byte, prio common.Hash, sub uint32, th uint64, stake, total *big.Int) (code int64) {
+	if pub == nil || total.Sign() <= 0 || stake.Cmp(total) > 0 || !stake.IsInt64() || !total.IsInt64() {
+		return -1
+	}
+	defer func() {
+		if r := recover(); r != nil {
+			code = 5
+		}
+	}()
+	addr := crypto.PubkeyToAddress(*pub)
+	val := state.NewValidator("v", addr, addr, params.RoleChancellor, crypto.CompressPubkey(pub), nil, new(big.Int).Mul(stake, big.NewInt(1000)), stake, 0, 0, 0, params.ValidatorOnline)
+	stat := state.NewValidatorsStat()
+	stat.GetByKind(params.KindChamber).AddVal(val)
+	if rest := new(big.Int).Sub(total, stake); rest.Sign() > 0 {
+		stat.GetByKind(params.KindChamber).AddVal(state.NewValidator("w", common.Address{9}, common.Address{9}, params.RoleChancellor, nil, nil, new(big.Int).Mul(rest, big.NewInt(1000)), rest, 0, 0, 0, params.ValidatorOnline))
+	}
+	cons, _ := rlp.EncodeToBytes(&ucon.BlockConsensusData{Round: big.NewInt(1), Seed: seed})
+	hdr := &types.Header{Number: big.NewInt(1), Consensus: cons}
+	var yp params.YouParams
+	for _, v := range params.Versions {
+		yp = v
+	}
+	yp.ProposerThreshold = th
+	data := &ucon.ConsensusCommon{Round: big.NewInt(10), RoundIndex: index, Step: role, Priority: prio, SortitionProof: proof, SubUsers: sub}
+	if err := ucon.VerifC04ServerVerifyPriority(&stubChain{hdr: hdr, vld: &stubVld{stat, val}}, &yp, big.NewInt(10), pub, data); err != nil {
+		return 1
+	}
+	return 0
+}
+
+// serverRepaired: does the working tree's Server.verifyPriority reject a wrong priority?
+func serverRepaired() bool {
+	sk, pk := keyOf(fmt.Sprintf("%064x", 3))
+	seed := common.HexToHash("0xaa624d806402ab4f06e70b6491ad21d270c86024356b8a1fbcadb5f0945d0984")
+	_, proof, j, _ := callSortition(sk, seed, 1, 1, 26, big.NewInt(30), big.NewInt(50))
+	return serverVerifyPriority(pubOf(pk), seed, 1, 1, proof, common.Hash{0xff}, j, 26, big.NewInt(30), big.NewInt(50)) != 0
+}
+
 func hashHex(s string) common.Hash { return common.HexToHash(s) }
 func hInt(h common.Hash) *big.Int  { return new(big.Int).SetBytes(h[:]) }
 
@@ -589,27 +664,67 @@ func minBE(i int64) []byte { return big.NewInt(i).Bytes() }
 
 func keccakInt(b []byte) *big.Int { return new(big.Int).SetBytes(crypto.Keccak256(b)) }
 
-// independent statement of the priority: max over i=0..j of Keccak(hash ++ minimal-BE(i))
-func prioSpec(h common.Hash, j int64) *big.Int {
-	mx := new(big.Int)
+// Independent statement of the priority (the rule of computePriority in the
+// unchanged code): the largest, as a 256-bit number, of
+// Keccak256(vrfOutput ++ seat) over the seats 0..j, the seat number in its
+// minimal big-endian form (big.Int.Bytes: nothing for seat 0), starting from
+// the zero hash.  Returns the maximum and the seat that attains it.
+func prioSpecArg(h common.Hash, j int64) (*big.Int, int64) {
+	mx, arg := new(big.Int), int64(-1)
 	for i := int64(0); i <= j; i++ {
 		v := keccakInt(append(append([]byte{}, h[:]...), minBE(i)...))
 		if v.Cmp(mx) > 0 {
-			mx = v
+			mx, arg = v, i
 		}
 	}
-	return mx
+	return mx, arg
+}
+func prioSpec(h common.Hash, j int64) *big.Int   { m, _ := prioSpecArg(h, j); return m }
+func refPrio(h common.Hash, j int64) common.Hash { return common.BigToHash(prioSpec(h, j)) }
+
+// libPrioWhat compares VrfComputePriority with the rule above.
+func libPrioWhat(h common.Hash, j uint32) string {
+	if got := ucon.VrfComputePriority(h, j); hInt(got).Cmp(prioSpec(h, int64(j))) != 0 {
+		return fmt.Sprintf("VrfComputePriority(%d seats) is not the largest Keccak256(output ++ minimal big-endian seat) over the seats 0..%d", j, j)
+	}
+	return ""
 }
 
-// Keccak table for inputs h ++ suffix: (suffix, value) pairs
+// Keccak table for inputs h ++ suffix: (suffix, value) pairs.  Up to 80 seats
+// the table is complete; beyond, it is sparse: the model reads an unknown input
+// as 0, so the table holds the seats that decide the maximum for every bound
+// the model may be asked (upto-3 .. upto), the byte-length boundaries of the
+// seat number, and a few others.
 func ktblFor(h common.Hash, upto int64) [][2]interface{} {
 	var t [][2]interface{}
+	done := map[string]bool{}
 	add := func(suffix []byte) {
+		if done[string(suffix)] {
+			return
+		}
+		done[string(suffix)] = true
 		k := append(append([]byte{}, h[:]...), suffix...)
 		t = append(t, [2]interface{}{suffix, keccakInt(k)})
 	}
-	for i := int64(0); i <= upto; i++ {
-		add(minBE(i))
+	if upto <= 80 {
+		for i := int64(0); i <= upto; i++ {
+			add(minBE(i))
+		}
+	} else {
+		for _, i := range []int64{0, 1, 2, 254, 255, 256, 257, 258, 511, 512, 65535, 65536, 65537, upto - 4, upto - 3, upto - 2, upto - 1, upto, upto / 2, upto / 3} {
+			if i >= 0 && i <= upto {
+				add(minBE(i))
+			}
+		}
+		for b := upto - 6; b <= upto; b++ { // the seat attaining the maximum for each bound near upto
+			if b >= 0 {
+				_, arg := prioSpecArg(h, b)
+				add(minBE(arg))
+			}
+		}
+		// the little-endian spelling of boundary seats must not be what the model looks up
+		add([]byte{0, 1})
+		add([]byte{1, 1})
 	}
 	// decoys: other encodings of i must not be what the model looks up
 	add([]byte{0})
@@ -784,10 +899,19 @@ func run(rec *Rec, toCoq bool) outcome {
 				o.what = "VrfComputePriority differs from computePriority"
 			}
 		}
+		o.class = "priority"
+		switch {
+		case rec.J >= 65536:
+			o.class = "priority_seats_ge_65536"
+		case rec.J >= 256:
+			o.class = "priority_seats_ge_256"
+		}
 		if hInt(got).Cmp(prioSpec(h, rec.J)) != 0 {
 			o.what = "priority is not the largest Keccak(hash ++ i) over i = 0..seats"
 		}
-		o.coq = fmt.Sprintf("CPrio %s %s %s %s", zb(hInt(h)), zi(rec.J), tblCoq(ktblFor(h, rec.J+2)), zb(hInt(got)))
+		if toCoq && rec.J <= 3000 {
+			o.coq = fmt.Sprintf("CPrio %s %s %s %s", zb(hInt(h)), zi(rec.J), tblCoq(ktblFor(h, rec.J+2)), zb(hInt(got)))
+		}
 	case "sort", "verify", "verifyprio":
 		o = runProtocol(rec, toCoq)
 	case "mgr":
@@ -926,6 +1050,11 @@ func runManager(rec *Rec, toCoq bool) outcome {
 						o.what = fmt.Sprintf("sortition manager returned a credential (seats %d) that VrfVerifySortition does not accept for the round asked for (verdict %d); %s", view.SubUsers, code, where)
 					}
 					if isProp && o.what == "" {
+						if h, herr, _ := libVsRef(pk, asked, view.SortitionProof); herr == nil && hInt(view.Priority).Cmp(prioSpec(common.Hash(h), int64(view.SubUsers))) != 0 {
+							o.what = "sortition manager returned a proposer priority that is not the largest seat hash; " + where
+						}
+					}
+					if isProp && o.what == "" {
 						if pc := callVerifyPrio(pk, sd, op.Index, step, view.SortitionProof, view.Priority, view.SubUsers, th, stake, total); pc != 0 {
 							o.what = fmt.Sprintf("sortition manager returned a proposer priority that VrfVerifyPriority does not accept for the round asked for (verdict %d); %s", pc, where)
 						}
@@ -1050,7 +1179,8 @@ func runProtocol(rec *Rec, toCoq bool) outcome {
 	thB := new(big.Int).SetUint64(th)
 	val, proof, j, panicked := callSortition(sk, seed, rec.Index, rec.Role, th, stake, total)
 	m := ucon.MakeM(seed, rec.Role, rec.Index)
-	affordable := total.Sign() == 0 || coqAffordable(rec.Stake, total)
+	// committee >= total: everything is selected, the model's distribution table is trivial
+	affordable := total.Sign() == 0 || coqAffordable(rec.Stake, total) || (thB.Cmp(total) >= 0 && rec.Stake <= 1500)
 	if rec.Kind == "sort" {
 		o.class = "sortition"
 		o.got = fmt.Sprintf("j=%d panicked=%v", j, panicked)
@@ -1109,11 +1239,13 @@ func runProtocol(rec *Rec, toCoq bool) outcome {
 	// with one field changed.
 	if !panicked && total.Sign() != 0 {
 		c1 := callVerify(pk, seed, rec.Index, rec.Role, proof, j, th, stake, total)
-		c2 := callVerifyPrio(pk, seed, rec.Index, rec.Role, proof, ucon.VrfComputePriority(val, j), j, th, stake, total)
+		c2 := callVerifyPrio(pk, seed, rec.Index, rec.Role, proof, refPrio(val, int64(j)), j, th, stake, total)
 		if (j > 0) != (c1 == 0) {
 			o.what = fmt.Sprintf("genuine credential with %d seats: verdict %d", j, c1)
 		} else if c2 != 0 {
-			o.what = fmt.Sprintf("genuine priority rejected (code %d)", c2)
+			o.what = fmt.Sprintf("the genuine largest seat hash over %d seats is rejected as priority (code %d)", j, c2)
+		} else if w := libPrioWhat(val, j); w != "" {
+			o.what = w
 		}
 		for d := int64(0); d < rec.PArg%4; d++ {
 			osk, opk := keyOf(fmt.Sprintf("%064x", 100+d+rec.PArg%7))
@@ -1128,7 +1260,7 @@ func runProtocol(rec *Rec, toCoq bool) outcome {
 	warmWhat := o.what
 	// the credential (pk, seed, index, role, proof, j) ; now perturb one field
 	vpk, vseed, vindex, vrole, vproof, vsub, vth, vstake, vtotal := pk, seed, rec.Index, rec.Role, append([]byte{}, proof...), j, th, stake, total
-	prio := ucon.VrfComputePriority(val, j)
+	prio := refPrio(val, int64(j)) // the harness' own statement of the priority rule
 	vprio := prio
 	mustReject := false
 	switch rec.Perturb {
@@ -1164,7 +1296,7 @@ func runProtocol(rec *Rec, toCoq bool) outcome {
 						vsub = uint32(js)
 					}
 				}
-				vprio = ucon.VrfComputePriority(common.Hash(fo), vsub)
+				vprio = refPrio(common.Hash(fo), int64(vsub))
 				if rec.Perturb != "forge_tag" || (vsub > 0 && vsub != j) {
 					break // a tag whose output wins other seats than the honest one
 				}
@@ -1216,17 +1348,17 @@ func runProtocol(rec *Rec, toCoq bool) outcome {
 		mustReject = true
 	case "priority_fewer":
 		if j > 0 {
-			vprio = ucon.VrfComputePriority(val, uint32(rec.PArg%int64(j)))
+			vprio = refPrio(val, rec.PArg%int64(j))
 		}
 	case "priority_more":
-		vprio = ucon.VrfComputePriority(val, j+1+uint32(rec.PArg%3))
+		vprio = refPrio(val, int64(j)+1+rec.PArg%3)
 	case "priority_random":
 		vprio = common.BigToHash(keccakInt([]byte(fmt.Sprint(rec.PArg))))
 	case "priority_single":
 		vprio = common.BigToHash(keccakInt(append(append([]byte{}, val[:]...), minBE(rec.PArg%int64(j+1))...)))
 	}
 	if rec.Perturb == "key_restake" {
-		vprio = ucon.VrfComputePriority(val, vsub)
+		vprio = refPrio(val, int64(vsub))
 	}
 	vm := ucon.MakeM(vseed, vrole, vindex)
 	// does the proof verify for exactly this key and message?  Answered by the
@@ -1238,7 +1370,7 @@ func runProtocol(rec *Rec, toCoq bool) outcome {
 		vt = append(vt, [2]interface{}{vm, new(big.Int).SetBytes(pth[:])})
 	}
 	vthB := new(big.Int).SetUint64(vth)
-	affordable = vtotal.Sign() == 0 || coqAffordable(vstake.Int64(), vtotal)
+	affordable = vtotal.Sign() == 0 || coqAffordable(vstake.Int64(), vtotal) || (vthB.Cmp(vtotal) >= 0 && vstake.Int64() <= 1500)
 	// what the verifier must recompute (independent of the implementation's choose)
 	expectJ := int64(-1) // unknown
 	if perr == nil && vtotal.Sign() != 0 && vthB.Cmp(vtotal) <= 0 {
@@ -1298,13 +1430,31 @@ func runProtocol(rec *Rec, toCoq bool) outcome {
 	case code == 0 && expectJ >= 0 && absDiff(int64(vsub), expectJ) > 1:
 		o.what = fmt.Sprintf("priority accepted for %d seats, the quantile is %d", vsub, expectJ)
 	case code != 0 && rec.Perturb == "none" && !panicked && total.Sign() != 0:
-		o.what = fmt.Sprintf("untouched priority rejected (code %d)", code)
+		o.what = fmt.Sprintf("the genuine largest seat hash over %d seats is rejected as priority (code %d)", vsub, code)
 	}
 	if o.what == "" {
 		o.what = warmWhat
 	}
 	if o.what == "" {
 		o.what = libWhat
+	}
+	// the gossip path: Server.verifyPriority must accept exactly what VrfVerifyPriority accepts
+	srv := serverVerifyPriority(pubOf(vpk), vseed, vindex, vrole, vproof, vprio, vsub, vth, vstake, vtotal)
+	if srv >= 0 {
+		o.class += fmt.Sprintf("_server%d", srv)
+		if o.what == "" && srv == 0 && code != 0 {
+			o.what = whatServer
+			if code != 6 {
+				o.what = fmt.Sprintf("Server.verifyPriority accepts a credential VrfVerifyPriority rejects (verdict %d)", code)
+			}
+		}
+		if o.what == "" && srv != 0 && code == 0 {
+			o.what = "Server.verifyPriority rejects a priority VrfVerifyPriority accepts"
+		}
+	}
+	if toCoq && affordable && srv >= 0 && srv != 5 && vstake.Int64() <= 240 {
+		// the wrapper's own correspondence case rides on the same record
+		o.coq2 = fmt.Sprintf("CServerPrio %s %d %d", vf.Bool(srvRepaired), code, srv)
 	}
 	if toCoq && affordable {
 		var kt [][2]interface{}
@@ -1569,8 +1719,15 @@ func genRec(r *vf.Rng) *Rec {
 			Role: uint32(1 + r.Intn(5)), Index: uint32(r.Intn(3)), Perturb: forgeVariants[r.Intn(len(forgeVariants))], PArg: int64(r.Intn(1 << 30))}
 	case k < 67:
 		j := int64(r.Heavy(64))
-		if r.Chance(10) {
-			j = []int64{0, 1, 255, 256, 257}[r.Intn(5)]
+		switch r.Intn(10) {
+		case 0: // byte-length boundaries of the seat number
+			j = []int64{0, 1, 254, 255, 256, 257, 258, 511, 512, 513}[r.Intn(10)]
+		case 1, 2: // many seats with a two-byte number
+			j = int64(256 + r.Intn(2500))
+		case 3:
+			if r.Chance(40) { // three-byte seat numbers (implementation and harness oracle only)
+				j = []int64{65535, 65536, 65537, 70000, 66000 + int64(r.Intn(5000))}[r.Intn(5)]
+			}
 		}
 		return &Rec{Kind: "prio", Hash: hex32(new(big.Int).SetBytes(r.Bytes(32))), J: j}
 	default:
@@ -1598,7 +1755,20 @@ func genRec(r *vf.Rng) *Rec {
 			rec.Role = uint32(r.U64())
 		}
 		small := r.Chance(80)
-		if small {
+		if r.Chance(14) {
+			// a winner with hundreds of seats: committee >= total selects the whole
+			// stake, so the seat count crosses the byte-length boundaries of the seat number
+			rec.Stake = []int64{255, 256, 257, 258, 300, 512, 513, int64(259 + r.Intn(1200))}[r.Intn(8)]
+			if r.Chance(12) {
+				rec.Stake = []int64{65535, 65536, 65537, 70000}[r.Intn(4)]
+			}
+			tot := int64(1 + r.Intn(9))
+			th := tot
+			if r.Chance(20) {
+				th = tot + int64(1+r.Intn(3))
+			}
+			rec.Threshold, rec.Total = uint64(th), fmt.Sprint(tot)
+		} else if small {
 			rec.Stake = smallStake(r)
 			// committee/total so that a seat is likely
 			tot := int64(1 + r.Intn(60))
@@ -1656,6 +1826,8 @@ func gen(seed uint64, n int, outDir, corpusDir string) {
 	r := vf.NewRng(seed)
 	res := vf.NewResult("C04", seed)
 	rep := repaired()
+	srvRepaired = serverRepaired()
+	res.Extra["server_verify_priority_rejects_invalid"] = srvRepaired
 	res.Extra["choose_clamps_committee_over_total"] = rep
 	var coqCases []string
 	distinct := map[string]bool{}
@@ -1677,6 +1849,10 @@ func gen(seed uint64, n int, outDir, corpusDir string) {
 			hit := *rec
 			hit.What = o.what
 			res.OracleHits = append(res.OracleHits, hit)
+		}
+		if o.coq != "" && o.coq2 != "" {
+			coqCases = append(coqCases, o.coq2)
+			res.CaseDescs = append(res.CaseDescs, *rec)
 		}
 		if o.coq != "" {
 			coqCases = append(coqCases, o.coq)
@@ -1729,6 +1905,7 @@ func replay(file string) {
 		fmt.Println("not a C04 case:", err)
 		os.Exit(2)
 	}
+	srvRepaired = serverRepaired()
 	o := run(&rec, false)
 	fmt.Printf("kind=%s class=%s got=%s\n", rec.Kind, o.class, o.got)
 	if o.what != "" {
